@@ -38,6 +38,7 @@ type Solver struct {
 	depth     int
 	alt       *Solver
 	Fallbacks int // unknowns resolved by a fallback solver
+	Killed    int // solver processes killed for ignoring their time limit
 	noFallback bool
 }
 
@@ -140,7 +141,7 @@ func (s *Solver) check() string {
 	s.send("(check-sat)")
 	s.in.Flush()
 	t0 := time.Now()
-	l, err := s.out.ReadString('\n')
+	l, err := s.readAnswer()
 	d := time.Since(t0)
 	s.Time += d
 	if d > s.MaxQuery {
@@ -162,6 +163,49 @@ func (s *Solver) check() string {
 		return "unknown"
 	}
 	panic(engineError{"solver said: " + l})
+}
+
+// readAnswer reads the reply to a check-sat. A solver that does not honour its own time
+// limit (observed: a z3 process silent for an hour) is killed after twice the limit plus a
+// grace period and replaced by a fresh process holding the same assertions; the query then
+// counts as unknown (and goes to the fallback solvers).
+func (s *Solver) readAnswer() (string, error) {
+	if s.TimeoutMs <= 0 {
+		return s.out.ReadString('\n')
+	}
+	type res struct {
+		l   string
+		err error
+	}
+	ch := make(chan res, 1)
+	out := s.out
+	go func() {
+		l, err := out.ReadString('\n')
+		ch <- res{l, err}
+	}()
+	hard := 2*time.Duration(s.TimeoutMs)*time.Millisecond + 15*time.Second
+	select {
+	case r := <-ch:
+		return r.l, r.err
+	case <-time.After(hard):
+	}
+	s.cmd.Process.Kill()
+	<-ch
+	s.cmd.Wait()
+	s.Killed++
+	n, err := NewSolver(s.Bin, s.TimeoutMs)
+	if err != nil {
+		return "", err
+	}
+	s.cmd, s.in, s.out = n.cmd, n.in, n.out
+	if s.depth > 0 {
+		s.in.WriteString("(push)\n")
+		for _, l := range s.log {
+			s.in.WriteString(l)
+			s.in.WriteByte('\n')
+		}
+	}
+	return "unknown", nil
 }
 
 // tryFallbacks replays the current path's solver state into fresh processes of the
